@@ -1,6 +1,6 @@
 #!/usr/bin/env python3
-"""usage: tools/seed_matrix.py [seed-id ...]   -- for every seeded change: apply it to /repo, run the quick check of its own
-property (and of the properties listed in EXTRA), restore /repo, and record which checks reported a VIOLATION in meta.json"""
+"""usage: tools/seed_matrix.py [seed-id ...]   -- for every seeded change: apply it in a scratch worktree of /repo (PMV_REPO), run the quick check of its own
+property (and of the properties listed in EXTRA), remove the worktree, and record which checks reported a VIOLATION in meta.json"""
 import json, os, subprocess, sys
 V = os.path.dirname(os.path.dirname(os.path.abspath(__file__)))
 EXTRA = {'C10-01': ['C18'], 'C05-01': ['C18'], 'C04-01': ['C18'], 'C02-01': ['C20', 'C01'], 'C12-01': ['C04', 'C05'], 'C17-01': ['C12']}
@@ -14,15 +14,16 @@ for sid in ids:
     for p in props:
         if p not in claimed:
             continue
-        if subprocess.run('git status --porcelain -- pymodbus', shell=True, cwd='/repo', stdout=subprocess.PIPE, text=True).stdout.strip():
-            sys.exit('/repo not clean')
-        if subprocess.run(['git', 'apply', os.path.join(d, 'patch.diff')], cwd='/repo').returncode != 0:
-            miss.append(p + ' (patch no longer applies to the repaired tree)')
-            continue
+        wt = '/tmp/mut_matrix_%d' % os.getpid()
+        subprocess.run(['git', '-C', '/repo', 'worktree', 'add', '-q', '--detach', wt, 'HEAD'], check=True)
         try:
-            r = subprocess.run(['python3', 'check.py', p, '--tier', 'quick'], cwd=V, stdout=subprocess.PIPE, stderr=subprocess.STDOUT, text=True)
+            if subprocess.run(['git', 'apply', os.path.join(d, 'patch.diff')], cwd=wt).returncode != 0:
+                miss.append(p + ' (patch no longer applies to the repaired tree)')
+                continue
+            r = subprocess.run(['python3', 'check.py', p, '--tier', 'quick'], cwd=V, stdout=subprocess.PIPE, stderr=subprocess.STDOUT, text=True,
+                               env=dict(os.environ, PMV_REPO=wt))
         finally:
-            subprocess.run(['git', 'checkout', '--', '.'], cwd='/repo', check=True)
+            subprocess.run(['git', '-C', '/repo', 'worktree', 'remove', '--force', wt], check=True)
         viol = [l for l in r.stdout.splitlines() if l.startswith('VIOLATION')]
         hard = [l for l in viol if 'no-failing-input-found' not in l]
         (det if (r.returncode == 1 and viol) else miss).append(p + ('' if hard or not viol else ' (no-failing-input-found)'))
